@@ -394,21 +394,53 @@ def _outside_domain(bounds, A, b, f, elsize, n_sp, rel):
 DOC_REFUSALS = ("Non-contiguous access is not possible", "Access pattern bounds do not fit this streamer", "Access patterns with symbols", "unsupported kernel", "Unsupported type")
 
 
+def _geom_ctx(r, acc_name):
+    """Context for this case: the shared one, or (r["geom"]) a clone in which the accelerator is registered with another streamer
+    geometry -- the same ports, other spatial factorisations -- the way snaxc --config registers a configured accelerator."""
+    ctx = shared_ctx()
+    if not r.get("geom"):
+        return ctx
+    from snaxc.accelerators.streamers.streamers import Streamer, StreamerConfiguration
+
+    base = ctx.get_acc(acc_name)
+    old = base.streamer_config.data.streamers
+    new = []
+    for i, s_ in enumerate(old):
+        sp = r["geom"][i % len(r["geom"])]
+        total = 1
+        for x in s_.spatial_dims:
+            total *= x
+        t2 = 1
+        for x in sp:
+            t2 *= x
+        new.append(Streamer(s_.type, tuple(s_.temporal_dims), tuple(sp) if t2 == total else tuple(s_.spatial_dims), tuple(s_.opts)))
+    acc = type(base)(StreamerConfiguration(new))
+    ctx = ctx.clone()
+    ctx._registered_accelerators = dict(ctx._registered_accelerators)
+    ctx._registered_accelerators[acc_name] = lambda: acc
+    return ctx
+
+
+# which hardware streamer serves which operand (written down here, not asked from the accelerator class)
+GEMMX_STREAMERS = {("matmul", False): (0, 1, 4), ("matmul", True): (0, 1, 2), ("gemm", False): (0, 1, 3, 4), ("gemm", True): (0, 1, 3, 2),
+                   ("conv", False): (0, 1, 4), ("rescale", True): (3, 2)}
+
+
 def prop(r):
     text = build(r)
-    ctx = shared_ctx()
+    acc_name = "snax_alu" if r["kind"] == "alu" else "snax_gemmx"
+    ctx = _geom_ctx(r, acc_name)
     try:
         mod = parse(text, ctx)
         mod.verify()
     except Exception as e:
         raise HarnessError(f"builder produced invalid IR: {e}\n{text}")
-    acc_name = "snax_alu" if r["kind"] == "alu" else "snax_gemmx"
     try:
         with time_limit(20):
-            run_pass(mod, "insert-accfg-op", accelerator=acc_name)
-            run_pass(mod, "dart-scheduler")
+            run_pass(mod, "insert-accfg-op", ctx=ctx, accelerator=acc_name)
+            run_pass(mod, "dart-scheduler", ctx=ctx)
             if r["layout"] in ("pass_tiled", "pass_untiled"):
-                run_pass(mod, "set-memory-layout", tiled=(r["layout"] == "pass_tiled"))
+                run_pass(mod, "set-memory-layout", ctx=ctx, tiled=(r["layout"] == "pass_tiled"))
             mod.verify()
     except PassTimeout:
         raise Reject("scheduler did not terminate within 20 s")
@@ -422,7 +454,12 @@ def prop(r):
     sched = scheds[0]
     acc = ctx.get_acc(acc_name)
     template = acc.get_template(sched)
-    streamers = acc.get_streamers(sched)
+    hw_all = acc.streamer_config.data.streamers
+    if r["kind"] == "alu":
+        streamers = [hw_all[i] for i in range(len(sched.operands))]
+    else:
+        key = (r["kind"], bool(r.get("i8_out")) or r["kind"] == "rescale")
+        streamers = [hw_all[i] for i in GEMMX_STREAMERS[key]]
     bounds = [b.value.data for b in sched.bounds.data]
     n_sp = template.num_dims
     if len(bounds) < n_sp:
@@ -481,8 +518,8 @@ def prop(r):
     try:
         with warnings.catch_warnings(record=True) as wlist, time_limit(20), contextlib.redirect_stderr(io.StringIO()):
             warnings.simplefilter("always")
-            run_pass(mod, "dart-layout-resolution")
-            run_pass(mod, "convert-dart-to-snax-stream")
+            run_pass(mod, "dart-layout-resolution", ctx=ctx)
+            run_pass(mod, "convert-dart-to-snax-stream", ctx=ctx)
     except PassTimeout:
         raise Reject("conversion did not terminate within 20 s")
     except (NotImplementedError,) as e:
@@ -589,6 +626,8 @@ def prop(r):
         cls.append("one-buffer-feeds-two-operands")
     if r.get("i8_out") and r["kind"] in ("matmul", "gemm"):
         cls.append("gemmx-i8-output:" + r["kind"])
+    if r.get("geom") and [tuple(s_.spatial_dims) for s_ in hw_all] != [tuple(s_.spatial_dims) for s_ in shared_ctx().get_acc(acc_name).streamer_config.data.streamers]:
+        cls.append("non-default-streamer-geometry")
     cls += sorted({"ref:" + d for d, _ in descs})
     if any(g - {1} for g in fill.values()):
         cls.append("spatial_fillup")
@@ -617,6 +656,11 @@ def recipe(draw, tier):
     kind = draw(st.sampled_from(["alu", "alu", "alu", "alu", "matmul", "matmul", "matmul", "matmul", "gemm", "gemm", "conv", "conv", "rescale"]))
     layout = draw(st.sampled_from(["none", "pass_tiled", "pass_tiled", "pass_untiled", "given", "given"]))
     r = dict(kind=kind, layout=layout)
+    if draw(st.integers(0, 4)) == 0:
+        # another spatial factorisation of the same ports (configured accelerator): per streamer one of the factorisations that fit
+        one = st.sampled_from([[8], [4, 2], [2, 4], [4], [2, 2]])
+        two = st.sampled_from([[8, 4], [4, 8], [32], [2, 16], [16, 2], [4], [2, 2]])
+        r["geom"] = [draw(one), draw(one), draw(one if kind != "alu" else one), draw(two), draw(two)] if kind != "alu" else [draw(one) for _ in range(3)]
     mult8 = st.sampled_from([8, 16, 24, 32] + ([40, 64] if big else []))
     if kind == "alu":
         rank = draw(st.integers(1, 3))
